@@ -3289,16 +3289,15 @@ class PWConstr:
 
     def forall(self, *args):
 
-        pieces = []
+        # like forall() of an affine constraint: the set is given to this
+        # constraint itself (also when it is already part of a model), and
+        # the constraint is returned
         for piece in self.pieces:
             if isinstance(piece, (DecLinConstr, DecBounds, RoConstr)):
-                # a copy: the pieces of the constraint this is called on
-                # keep the set they have
-                pieces.append(copy.copy(piece).forall(*args))
-            else:
-                pieces.append(piece)
+                piece.forall(*args)
+        self.supp_set = args
 
-        return PWConstr(self.model, pieces, args)
+        return self
 
 
 class PCvxConstr(CvxConstr):
@@ -5338,7 +5337,14 @@ class ExpPWConstr(PWConstr):
 
     def forall(self, ambset):
 
-        return ExpPWConstr(self.model, self.pieces, ambset)
+        # in place, like forall() of the other constraints
+        self.ambset = ambset
+        top = getattr(self.model, 'top', None)
+        if top is not None:
+            top.pupdate = True
+            top.dupdate = True
+
+        return self
 
 
 class DecPCvxConstr(PCvxConstr):
